@@ -1322,5 +1322,89 @@ Proof.
       unfold resumable. rewrite Pz, Iz, Sz, Dz, Cz. destruct (main_err sZ); reflexivity. }
     destruct (resume_replays_nothing sZ Sz Cz Bz) as (W1 & _ & _ & W4). split; assumption.
 Qed.
+
+(* (2) no checkpoint follows: the plan completes, the call is not interrupted by the request, the flag is reported as
+   pending and stays set until the next call starts, which clears it (`_clear_call_cache`) *)
+Theorem deferred_pause_stays_pending evs0 evsA evsC res :
+  let s0 := fst (runE s_i evs0) in
+  let sr := fst (stepE s0 (EvReqPause true)) in
+  let sA := fst (runE sr evsA) in
+  let oA := snd (runE sr evsA) in
+  let sC := fst (runE sA evsC) in
+  nobad s_i (evs0 ++ EvReqPause true :: evsA) ->
+  allowed (state s0) Pausing = true -> pc s0 <> PcCmd KCkptSleep ->
+  forallb calm evsA = true -> clean oA = true -> pc sA = PcDone res ->
+  forallb calm evsC = true ->
+  onlyidle oA = true /\
+  state sA = Idle /\ deferred sA = true /\ interrupted sA = interrupted s0 /\
+  (forall act, is_call act = true ->
+     snd (stepE sA (EvMainDone act)) =
+       [OOut (match main_err sA with
+              | Some e => OutRaise e
+              | None => match res with
+                        | TRaise ECancelled => if interrupted s0 then OutInterrupted else OutReturn (run_uids sA)
+                        | TRaise e => OutRaise e
+                        | TReturn _ => if interrupted s0 then OutInterrupted else OutReturn (run_uids sA)
+                        end
+              end) Idle true (resumable sA)]) /\
+  deferred sC = true /\ state sC = Idle /\ forallb still_ob (snd (runE sA evsC)) = true /\
+  (forall pid, deferred (fst (stepE sC (EvMain (ACall pid)))) = false /\
+               pc (fst (stepE sC (EvMain (ACall pid)))) = PcNotStarted /\
+               interrupted (fst (stepE sC (EvMain (ACall pid)))) = false).
+Proof.
+  intros s0 sr sA oA sC Hb Ha Hnk HcA HclA Hpc HcC.
+  assert (B0 : nobad s_i evs0) by (apply RE_ExitE2E.nobad_app in Hb; apply Hb).
+  destruct (accept_facts evs0 B0 Ha Hnk) as (sr' & Er & HA). fold s0 in Er, HA.
+  assert (Esr : sr = sr') by (unfold sr; rewrite Er; reflexivity). rewrite <- Esr in HA.
+  set (i0 := interrupted s0) in *.
+  assert (Rr : fst (runE s_i (evs0 ++ [EvReqPause true])) = sr).
+  { rewrite run_app_eq. cbn [fst]. rewrite run_cons. reflexivity. }
+  assert (Hb' : nobad s_i ((evs0 ++ [EvReqPause true]) ++ evsA)) by (rewrite <- app_assoc; exact Hb).
+  apply RE_ExitE2E.nobad_app in Hb' as [Br BrA]. rewrite Rr in BrA.
+  destruct (reach_facts _ Br) as (Gr & _ & _). rewrite Rr in Gr.
+  destruct (run_A i0 evsA sr HcA Gr BrA HA HclA) as [[[_ PA] _]|[DA OA]].
+  { exfalso. fold sA in PA. rewrite Hpc in PA. exact PA. }
+  fold sA in DA. fold oA in OA. pose proof DA as (_ & D2 & D3 & D4).
+  destruct (run_dead i0 evsC sA HcC DA) as [DC QC]. fold sC in DC. destruct DC as (_ & C2 & C3 & _).
+  split; [exact OA|]. split; [exact D2|]. split; [exact D3|]. split; [exact D4|].
+  split.
+  { intros act Hact. rewrite (RE_ExitE2E.maindone_call P presume plan_of D dev sA act Hact).
+    rewrite Hpc, D2, D3, D4. destruct (main_err sA); [reflexivity|]. destruct res as [v|e]; [reflexivity|]. destruct e; reflexivity. }
+  split; [exact C3|]. split; [exact C2|]. split; [exact QC|].
+  intros pid. cbn [step]. rewrite C2. ev_st. cbn. auto.
+Qed.
+
+(* (3) C09-a: the checkpoint may follow clear_checkpoint (no checkpoint in effect when it is reached): the deferred
+   pause still pauses there -- the lifecycle goes running -> pausing -> paused with the cache re-created empty *)
+Corollary deferred_pause_after_clear_checkpoint evs0 evsA evsG evsH :
+  let s0 := fst (runE s_i evs0) in
+  let sr := fst (stepE s0 (EvReqPause true)) in
+  let sA := fst (runE sr evsA) in
+  let oA := snd (runE sr evsA) in
+  let sK := fst (stepE sA EvTask) in
+  let oK := snd (stepE sA EvTask) in
+  let sG := fst (runE sK evsG) in
+  let sP := fst (stepE sG EvTask) in
+  let sH := fst (runE sP evsH) in
+  let sZ := fst (stepE sH EvTask) in
+  nobad s_i (evs0 ++ EvReqPause true :: evsA ++ EvTask :: evsG ++ EvTask :: evsH ++ [EvTask]) ->
+  allowed (state s0) Pausing = true -> pc s0 <> PcCmd KCkptSleep ->
+  forallb calm evsA = true -> forallb calm evsG = true -> no_task evsG = true ->
+  forallb calm evsH = true -> no_task evsH = true ->
+  clean oA = true ->
+  cache sA = None ->
+  forall a ck b, oK = a ++ OMsg ck :: b -> clean a = true -> mcmd ck = CCheckpoint ->
+  (forall b', b <> OResp (RExn EIMS) :: b') ->
+  cache sK = Some [] /\ state sP = Pausing /\
+  ((exists x, RE_Inv.hook_raises D dev MPause x) \/
+   (state sZ = Paused /\ cache sZ = Some [] /\
+    exists o23, snd (stepE sH EvTask) = o23 ++ [OState Pausing Paused] ++ [OTask WFuture] /\ Forall dq o23)).
+Proof.
+  intros s0 sr sA oA sK oK sG sP sH sZ Hb Ha Hnk HcA HcG HnG HcH HnH HclA _ a ck b EoK Ca Hck Hne.
+  destruct (deferred_pause_end_to_end evs0 evsA evsG evsH Hb Ha Hnk HcA HcG HnG HcH HnH HclA a ck b EoK Ca Hck Hne)
+    as (_ & _ & _ & _ & _ & _ & _ & T8 & _ & _ & _ & T12 & _ & _ & _ & _ & _ & T18).
+  split; [exact T8|]. split; [exact T12|].
+  destruct T18 as [T|(U1 & _ & _ & U4 & _ & _ & U7 & _)]; [left; exact T | right]. split; [exact U1|]. split; [exact U4 | exact U7].
+Qed.
 End Sched.
 End Defer.
